@@ -163,6 +163,17 @@ pub fn directed_programs(kinds: &[Kind], seed: u64) -> Vec<Program> {
                 }
             }
         }
+        if k == Kind::Slit {
+            // locality counts around the byte carry of the count field, with assignments at the
+            // corners of the matrix
+            for n in [1u32, 2, 255, 256, 257, 300] {
+                let mut p = base.clone();
+                p.ctor = Ctor::Slit(n);
+                out.push(p.clone());
+                p.ops = vec![Op::SlitSet(0, n - 1, 0x21), Op::SlitSet(n - 1, n - 1, 0x42), Op::SlitSet(n / 2, 0, 0xff), Op::SlitSet(0, 0, 11)];
+                out.push(p);
+            }
+        }
         // ordered pairs of entry kinds (mixtures)
         for a in &labels {
             for b in &labels {
